@@ -393,7 +393,107 @@ func (ck *Check) acceptSetOf(rule string) *acceptSet {
 			as.ng = paramTerm(prm)
 		}
 	}
+	// what is judged is what runs: the validator never writes to its (by-value) copy of the options
+	// except through the verified lazy accessors — a copy normalised before the checks is admitted
+	// in a form the running controller never sees
+	for _, b := range fn.Blocks {
+		for _, in := range b.Instrs {
+			al, ok := in.(*ssa.Alloc)
+			if !ok || !types.Identical(al.Type().Underlying().(*types.Pointer).Elem(), a.TOptions) {
+				continue
+			}
+			bad := ck.writtenThrough(al, as.pure, 0, map[ssa.Value]bool{})
+			pos, got := ck.P.instrPos(al), ""
+			if bad != nil {
+				pos, got = ck.P.instrPos(bad), bad.String()+" in "+funcID(bad.Parent())
+			}
+			ck.cond(bad == nil, rule, "validator/judged-copy", pos, funcID(fn), "the validator only reads the options it judges (lazy accessors aside)", got, "the checks run on a modified copy: the admitted configuration is not the judged one")
+		}
+	}
 	return as
+}
+
+// writtenThrough follows an address (of the validator's options copy) through field addresses and
+// repo callees and returns the first instruction that may write through it or lets it escape.
+func (ck *Check) writtenThrough(v ssa.Value, pure map[*ssa.Function]string, depth int, seen map[ssa.Value]bool, initOK ...func(*ssa.Store) bool) ssa.Instruction {
+	if seen[v] {
+		return nil
+	}
+	seen[v] = true
+	refs := v.Referrers()
+	if refs == nil {
+		return nil
+	}
+	for _, r := range *refs {
+		switch x := r.(type) {
+		case *ssa.DebugRef:
+		case *ssa.UnOp:
+			// a load
+		case *ssa.FieldAddr:
+			if bad := ck.writtenThrough(x, pure, depth, seen, initOK...); bad != nil {
+				return bad
+			}
+		case *ssa.Store:
+			if x.Addr == v {
+				if len(initOK) > 0 && initOK[0] != nil {
+					if initOK[0](x) {
+						continue
+					}
+					return x
+				}
+				// the spill of the by-value parameter (or the copy of the judged value)
+				if _, isAlloc := v.(*ssa.Alloc); isAlloc {
+					switch sv := x.Val.(type) {
+					case *ssa.Parameter:
+						continue
+					case *ssa.UnOp:
+						if _, fromParam := sv.X.(*ssa.Parameter); fromParam && sv.Op == token.MUL {
+							continue
+						}
+					}
+				}
+				return x
+			}
+			return x // the address itself is stored somewhere
+		case ssa.CallInstruction:
+			g := x.Common().StaticCallee()
+			if g == nil {
+				return x
+			}
+			if _, ok := pure[g]; ok {
+				continue
+			}
+			if readOnlyHook != nil && readOnlyHook(g) {
+				continue
+			}
+			if !ck.P.inRepo(g) || g.Blocks == nil || depth >= 3 {
+				return x
+			}
+			args := x.Common().Args
+			for i, av := range args {
+				if av == v && i < len(g.Params) {
+					if bad := ck.writtenThrough(g.Params[i], pure, depth+1, seen); bad != nil {
+						return bad
+					}
+				}
+			}
+		case *ssa.MakeClosure:
+			cf, _ := x.Fn.(*ssa.Function)
+			if cf == nil || depth >= 3 {
+				return x
+			}
+			for i, bv := range x.Bindings {
+				if bv == v && i < len(cf.FreeVars) {
+					if bad := ck.writtenThrough(cf.FreeVars[i], pure, depth+1, seen); bad != nil {
+						return bad
+					}
+				}
+			}
+		default:
+			return r
+		}
+	}
+	return nil
 }
 
 func checkC16(ck *Check) {
